@@ -35,6 +35,7 @@ type scCase struct {
 	Host    string `json:"host"`
 	Sni     string `json:"sni"`
 	Port443 bool   `json:"port443"`
+	Fam     string `json:"fam"`
 	Res     struct {
 		OK   bool   `json:"ok"`
 		From string `json:"from"`
@@ -139,6 +140,14 @@ func scRequest(c scCase, addr string) (req []byte, sni, want string, port string
 		hdr = append(hdr, "Host: MiXed.Example")
 	case "punycode":
 		hdr = append(hdr, "Host: xn--bcher-kva.example")
+	case "punycode-port":
+		hdr = append(hdr, "Host: xn--bcher-kva.example:8443")
+	case "ip4-port":
+		hdr = append(hdr, "Host: 192.0.2.7:8443")
+	case "ip6":
+		hdr = append(hdr, "Host: [2001:db8::7]")
+	case "ip6-port":
+		hdr = append(hdr, "Host: [2001:db8::7]:8443")
 	case "utf8":
 		hdr = append(hdr, "Host: b\xc3\xbccher.example")
 	}
@@ -164,7 +173,8 @@ func scRequest(c scCase, addr string) (req []byte, sni, want string, port string
 	case "header":
 		want = "header.example:4321"
 	case "host":
-		want = map[string]string{"ascii": "plain.example", "ascii-port": "plain.example:8443", "mixed-case": "MiXed.Example", "punycode": "xn--bcher-kva.example"}[c.Host]
+		want = map[string]string{"ascii": "plain.example", "ascii-port": "plain.example:8443", "mixed-case": "MiXed.Example", "punycode": "xn--bcher-kva.example",
+			"punycode-port": "xn--bcher-kva.example:8443", "ip4-port": "192.0.2.7:8443", "ip6": "[2001:db8::7]", "ip6-port": "[2001:db8::7]:8443"}[c.Host]
 	case "sni":
 		want = "sni.example"
 	case "sni-port":
@@ -227,6 +237,14 @@ func scriptCampaign(r *ev.Run) {
 	if err443 != nil {
 		r.Set("port_443_unavailable", err443.Error())
 	}
+	// the same over IPv6 loopback, where the sandbox has it
+	s6, err6 := srv.Start(srv.Opts{Addr: "[::1]:0"})
+	var s6443 *srv.S
+	if err6 != nil {
+		r.Set("ipv6_loopback_unavailable", err6.Error())
+	} else if s6443, err = srv.Start(srv.Opts{Addr: "[::1]:443"}); err != nil {
+		s6443 = nil
+	}
 	keys := make([]string, 0, len(cases))
 	for k := range cases {
 		keys = append(keys, k)
@@ -236,17 +254,22 @@ func scriptCampaign(r *ev.Run) {
 	for _, k := range keys {
 		c := cases[k]
 		sv := s
-		if c.Port443 {
-			if s443 == nil {
-				continue
-			}
+		switch {
+		case c.Fam == "ip6" && c.Port443:
+			sv = s6443
+		case c.Fam == "ip6":
+			sv = s6
+		case c.Port443:
 			sv = s443
+		}
+		if sv == nil {
+			continue
 		}
 		req, sni, want, _ := scRequest(c, sv.Addr)
 		n0 := sv.NLines()
 		resp := srv.Raw(sv.Addr, sni, req, 5*time.Second)
 		nA++
-		what := map[string]any{"form": c.Form, "header": c.Header, "host": c.Host, "sni": c.Sni, "port443": c.Port443, "expected_from": c.Res.From,
+		what := map[string]any{"form": c.Form, "header": c.Header, "host": c.Host, "sni": c.Sni, "port443": c.Port443, "listen_family": c.Fam, "expected_from": c.Res.From,
 			"status": resp.Status, "request": string(req)}
 		switch {
 		case c.Res.From == "rejected":
@@ -275,8 +298,10 @@ func scriptCampaign(r *ev.Run) {
 		}
 		_ = n0
 	}
-	if s443 != nil {
-		s443.Stop()
+	for _, x := range []*srv.S{s443, s6443} {
+		if x != nil {
+			x.Stop()
+		}
 	}
 	// ---- part C: many scripts, all IDs distinct and safe
 	var wg sync.WaitGroup
@@ -300,6 +325,10 @@ func scriptCampaign(r *ev.Run) {
 	// ---- the script yields a working shell
 	nWorking := 0
 	for i := 0; i < nShells; i++ {
+		s := s
+		if i%2 == 1 && s6 != nil {
+			s = s6 // the script must work whatever address family the listener is on
+		}
 		host := s.Addr
 		resp := srv.Get(s.Addr, "/c", host)
 		if resp.Status != 200 {
@@ -317,7 +346,7 @@ func scriptCampaign(r *ev.Run) {
 		}
 		done := make(chan error, 1)
 		go func() { done <- cmd.Wait() }()
-		what := map[string]any{"script": string(resp.Body)}
+		what := map[string]any{"script": string(resp.Body), "listen_address": s.Addr}
 		if _, ok := s.WaitLine(n0, 10*time.Second, func(cl opshell.CLine) bool { return strings.Contains(cl.Line, iobroker.ShellReadyMessage) }); !ok {
 			add(scFinding{"script-does-not-attach-a-shell", what})
 			cmd.Process.Kill()
@@ -345,6 +374,9 @@ func scriptCampaign(r *ev.Run) {
 		s.WaitLine(n0, 5*time.Second, func(cl opshell.CLine) bool { return strings.Contains(cl.Line, iobroker.ShellDisconnectedMessage) })
 	}
 	s.Stop()
+	if s6 != nil {
+		s6.Stop()
+	}
 	// ---- part B: the template file, every edge of the history machine
 	g.SetInitByNoIncoming()
 	rng := rand.New(rand.NewSource(r.Seed))
@@ -398,7 +430,7 @@ func scriptCampaign(r *ev.Run) {
 	r.Set("template_walks", nB)
 	r.Set("distinct_ids_seen", nids)
 	r.Set("working_shell_round_trips", nWorking)
-	r.Rule("TLC enumerates every combination of c2 form/query value (absent, empty, value, POST body), c2 header (absent, empty, value), Host (absent via HTTP/1.0, ascii, with port, mixed case, punycode, raw UTF-8), SNI (absent, present) and listen port (443 or not) with the source Script.tla's C2URL selects, and every history of template edits and requests up to the bound; each is played against a real hsrv over raw TLS (real edits, removals and re-creations of the template file between requests), the script is taken apart (both pins = hash of the leaf presented, same URL, same ID, safe ID alphabet, never repeated), many scripts are requested for ID freshness, and scripts are piped to real /bin/sh with real curl until a command round-trips through the attached shell; non-trivial = cases that must yield a script")
+	r.Rule("TLC enumerates every combination of c2 form/query value (absent, empty, value, POST body), c2 header (absent, empty, value), Host (absent via HTTP/1.0, ascii, with port, mixed case, punycode with and without port, IPv4 literal with port, bracketed IPv6 literal with and without port, raw UTF-8), SNI (absent, present), listen port (443 or not) and listen address family (IPv4, IPv6 loopback) with the source Script.tla's C2URL selects, and every history of template edits and requests up to the bound; each is played against a real hsrv over raw TLS (real edits, removals and re-creations of the template file between requests), the script is taken apart (both pins = hash of the leaf presented, same URL, same ID, safe ID alphabet, never repeated), many scripts are requested for ID freshness, and scripts from listeners of both address families are piped to real /bin/sh with real curl until a command round-trips through the attached shell; non-trivial = cases that must yield a script")
 	r.Assume("the IDNA clause is exercised with hosts net/http lets through; a raw UTF-8 Host is refused by net/http before the handler")
 }
 
@@ -423,7 +455,7 @@ func scTemplateWalk(g *graph.G, walk []int, dir string, ids map[string]bool, idm
 	}
 	var first []any
 	json.Unmarshal(g.State[g.Edges[walk[0]].From], &first)
-	t0, _ := first[6].(string)
+	t0, _ := first[7].(string)
 	o := srv.Opts{}
 	if t0 != "unconfigured" {
 		o.Tmplf = tf
@@ -451,7 +483,7 @@ func scTemplateWalk(g *graph.G, walk []int, dir string, ids map[string]bool, idm
 		case "Request":
 			hist = append(hist, "Request")
 			resp := srv.Get(s.Addr, "/c", "tmpl.example:7")
-			last, _ := to[8].(map[string]any)
+			last, _ := to[9].(map[string]any)
 			what := map[string]any{"history": append([]string{"start(" + t0 + ")"}, hist...), "status": resp.Status, "body": string(resp.Body)}
 			if last["k"] == "script" {
 				with, _ := last["with"].(string)
